@@ -55,7 +55,7 @@ def explore_embedded(S, want=('C04',)):
     f_markup = S.find_fn(core, 'PrettyPrinter::convert_markup_impl')
     f_math = S.find_fn(core, 'PrettyPrinter::convert_math')
     found = []
-    for container, (kind, lit) in itertools.product(('markup', 'math'), LITS):
+    for container, (kind, lit) in itertools.product(('markup', 'math', 'attach'), LITS):
         def body(ctx, container=container, kind=kind, lit=lit):
             m = S.machine(core, STD, ctx)
             c = z3.BitVec('next_char', 32)
@@ -65,6 +65,11 @@ def explore_embedded(S, want=('C04',)):
             par = Node(kt.k('Parenthesized'), children=[Node(kt.k('LeftParen'), text=Str.lit('(')), litn, Node(kt.k('RightParen'), text=Str.lit(')'))])
             nxt = Node(kt.k('Text' if container == 'markup' else 'MathText'), text=Str((c,)))
             kids = [Node(kt.k('Hash'), text=Str.lit('#')), par, nxt]
+            if container == 'attach':
+                # `x_#(lit)c`: the embedded code is the last child of the attachment, the glued content lies outside it
+                att = Node(kt.k('MathAttach'), children=[Node(kt.k('MathText'), text=Str.lit('x')), Node(kt.k('Underscore'), text=Str.lit('_')),
+                                                          Node(kt.k('Hash'), text=Str.lit('#')), par])
+                kids = [att, nxt]
             pr, cfg = pp.printer(m)
             c0 = pp.context()
             ctx.assume(z3.ULT(c0.get('mode').disc, 4))
@@ -176,6 +181,8 @@ def confirm_embedded(S, info):
     lit, ch = info['literal'], info['next_char']
     if info['container'] == 'field-access':
         src = '#(%s).name\n' % lit
+    elif info['container'] == 'attach':
+        src = '$x_#(%s)%s$\n' % (lit, ch)
     else:
         src = ('#(%s)%s\n' if info['container'] == 'markup' else '$#(%s)%s$\n') % (lit, ch)
     err, toks = leaves(S, src)
